@@ -12,6 +12,7 @@ import WB.Lemmas.C06Excl
 import WB.Lemmas.C06TetTile
 import WB.Lemmas.C06SplitSize
 import WB.Lemmas.C06Restart
+import WB.Lemmas.C06DistGamma
 import Mathlib.Tactic.IntervalCases
 
 namespace WB.C06
@@ -238,6 +239,35 @@ example : EqvHyp (fun i j => i % 2 == j % 2) 2 5 :=
     symm := fun i j _ _ h => by simp only [beq_iff_eq] at h ⊢; omega
     trans := fun i j k _ _ _ h h' => by simp only [beq_iff_eq] at h h' ⊢; omega
     old := fun i j hi hj hne => by simp only [beq_eq_false_iff_ne, ne_eq]; omega }
+
+/-! ## T4'' — the pre-filter key `distGamma` of `exclude_equiv_points` (distance from `K % 1` to the nearest lattice
+    point, searched among the corners `[-n, n]^3`; the code uses n = 3).  The key equals the true minimal distance as
+    soon as the box contains a minimiser, so two symmetry-equivalent points (same true distance) get the same key and
+    fall into the same group - the hypothesis `hcov` of `excludeEquiv_spec`.  For a sheared (non-reduced) basis the box
+    `±1` misses the minimiser: two equivalent points get different keys and would never be compared, `±3` does not.
+    (This part of the model is tied to the code by the oracle on sheared lattices, not by a protocol line.) -/
+
+theorem distGamma_is_true_distance (g : Gram) (n : Nat) (k : V3) (m : Rat)
+    (hlow : ∀ c ∈ boxCorners n, m ≤ g.sq ((fracV k).sub c))
+    (hatt : ∃ c ∈ boxCorners n, g.sq ((fracV k).sub c) = m) : distGammaSq g n k = m :=
+  distGammaSq_eq g n k m hlow hatt
+
+/-- two points with the same true distance `m` whose minimisers lie in the box get the same key -/
+theorem distGamma_equal_for_equivalent (g : Gram) (n : Nat) (k k' : V3) (m : Rat)
+    (h1 : ∀ c ∈ boxCorners n, m ≤ g.sq ((fracV k).sub c)) (a1 : ∃ c ∈ boxCorners n, g.sq ((fracV k).sub c) = m)
+    (h2 : ∀ c ∈ boxCorners n, m ≤ g.sq ((fracV k').sub c)) (a2 : ∃ c ∈ boxCorners n, g.sq ((fracV k').sub c) = m) :
+    distGammaSq g n k = distGammaSq g n k' := by
+  rw [distGammaSq_eq g n k m h1 a1, distGammaSq_eq g n k' m h2 a2]
+
+/-- sheared basis b3 = 2 b1 + z (Gram 1,0,2,1,0,5): K = (1/8, 0, 5/8) and its image -K under a two-fold axis -/
+theorem narrow_box_splits_equivalent_points :
+    let g : Gram := ⟨1, 0, 2, 1, 0, 5⟩
+    distGammaSq g 1 ⟨1/8, 0, 5/8⟩ ≠ distGammaSq g 1 ⟨-1/8, 0, -5/8⟩ ∧
+    distGammaSq g 3 ⟨1/8, 0, 5/8⟩ = distGammaSq g 3 ⟨-1/8, 0, -5/8⟩ := by
+  decide +kernel
+
+example : distGammaSq ⟨1, 0, 0, 1, 0, 1⟩ 1 ⟨1/4, 0, 0⟩ = 1/16 :=
+  distGamma_is_true_distance _ _ _ _ (by decide +kernel) (by decide +kernel)
 
 /-! ## T5 — every refinement history keeps `Σ factor = 1` and `factor ≥ 0` -/
 
